@@ -231,7 +231,7 @@ CAMPAIGNS.update({
         thorough=[ex(ph(LAYOUT + ["update_ids", "subsample"]), ph(["rt_hdf5"], True, "r")),
                   ex(ph(LAYOUT), ph(LAYOUT + ["subsample"], pick=6), ph(["rt_hdf5"], True, "r", 6))]),
     "json_roundtrip": model_campaign(
-        "json_roundtrip", palettes=FILEP, heaps="json",
+        "json_roundtrip", palettes=FILEP + [["ctrl", "plain"], ["ctrl", "adversarial"]], heaps="json",
         quick=[ex(ph(["rt_json"], True, "r")),
                ex(ph(["rt_json", "rt_tsv", "rt_hdf5"], False, "same"), ph(["rt_json"], True, "r", 6)),
                ex(ph(LAYOUT + ["update_ids", "subsample"], pick=10), ph(["rt_json"], True, "r", 6))],
